@@ -276,10 +276,13 @@ let () = register "queue" (fun f ->
 (* ---- EOF retry (C13) ---- *)
 let parse_script (s : string) : rstep list =
   if s = "-" then [] else
-  List.map (fun st ->
-    if String.length st > 2 && String.sub st 0 2 = "d:" then RData (bytes_of_hex (String.sub st 2 (String.length st - 2)))
-    else if st = "eof" then REof else if st = "timeout" then RTimeout else if st = "err" then ROther
-    else if String.length st > 6 && String.sub st 0 6 = "sleep:" then RSleep (n_of_int (int_of_string (String.sub st 6 (String.length st - 6))))
+  (* "de:<hex>" (bytes and io.EOF returned by one Read call) is, for the model, the bytes followed by an EOF result:
+     that is what the io.Reader contract says the caller must make of it. *)
+  List.concat_map (fun st ->
+    if String.length st > 2 && String.sub st 0 2 = "d:" then [RData (bytes_of_hex (String.sub st 2 (String.length st - 2)))]
+    else if String.length st > 3 && String.sub st 0 3 = "de:" then [RData (bytes_of_hex (String.sub st 3 (String.length st - 3))); REof]
+    else if st = "eof" then [REof] else if st = "timeout" then [RTimeout] else if st = "err" then [ROther]
+    else if String.length st > 6 && String.sub st 0 6 = "sleep:" then [RSleep (n_of_int (int_of_string (String.sub st 6 (String.length st - 6))))]
     else failwith ("bad step " ^ st)) (String.split_on_char ';' s)
 
 (* eofretry <script> <tolerance ms> <wait ms>  ->  err=<kind> msgs=<type,raw;..> closed=1 *)
